@@ -411,7 +411,9 @@ def r01_11(ctx: Ctx) -> None:
     five wrappers) therefore (a) puts the bytes held back by the previous call in front of the new piece, (b) while more data is outstanding
     (`fed + len(data) < size`) splits the piece at `len(data) - keep` into what is decoded and what is held (keep = min(len, HOLD_BACK) > 0),
     (c) counts what it hands to the decoder.  The suite has no member whose BCJ stage sees a piece boundary inside the last unit."""
-    c = ctx.prog.cls("BranchFilterDecoder", "compressor")
+    c = ctx.prog.module("compressor").classes.get("BranchFilterDecoder")
+    if c is None:
+        return  # no common hold-back stage: R01.10 decides whether the branch-filter decoders may be fed arbitrary pieces
     f = ctx.prog.method(c, "decompress")
     ctx.need(f is not None, "BranchFilterDecoder.decompress vanished")
     cfg = cfg_of(f.node)
